@@ -116,6 +116,17 @@ def solve_vc(vc: VC, timeout_ms: int, known_open: Optional[List[str]] = None) ->
         rec["status"] = {"sat": "ok", "unsat": "engine_error"}.get(res, "undecided")
     else:
         rec["status"] = {"sat": "ok", "unsat": "engine_error"}.get(res, "undecided")
+    if vc.kind == "vc" and res == "unsat" and vc.hyps:
+        # vacuity probe: a proof from contradictory hypotheses proves nothing (harmless for an explored-but-infeasible path,
+        # fatal when it happens to every obligation of a unit: see _run_unit)
+        key = hash(tuple(h.get_id() if hasattr(h, "get_id") else id(h) for h in vc.hyps))
+        if key not in _PROBE:
+            sp = z3.Solver()
+            sp.set("timeout", 1500)
+            for h in vc.hyps:
+                sp.add(h)
+            _PROBE[key] = str(sp.check())
+        rec["hyps_probe"] = _PROBE[key]
     if res == "sat" and rec["backend"] == "z3" and vc.kind == "vc":
         m = s.model()
         rec["model"] = {k: (_val(m.eval(e, model_completion=True)) if isinstance(e, z3.ExprRef) else e) for k, e in vc.model_vars.items()}
@@ -138,6 +149,7 @@ def solve_vc(vc: VC, timeout_ms: int, known_open: Optional[List[str]] = None) ->
 
 
 _UNITS: List[Unit] = []
+_PROBE: Dict[int, str] = {}
 
 
 def _run_unit(args) -> List[Dict[str, Any]]:
@@ -187,6 +199,10 @@ def _run_unit(args) -> List[Dict[str, Any]]:
                     "backend": "z3",
                 }
             )
+    probed = [r for r in out if r.get("kind") == "vc" and r.get("status") == "proved" and "hyps_probe" in r]
+    if probed and all(r["hyps_probe"] == "unsat" for r in probed):
+        out.append({"name": u.name + ".<vacuity>", "kind": "vacuity", "functions": u.functions, "status": "engine_error",
+                    "error": f"every proved obligation of this unit with hypotheses ({len(probed)}) has contradictory hypotheses", "time_s": 0.0, "backend": "z3"})
     if not vcs:
         out.append({"name": u.name + ".<generate>", "kind": "vc", "functions": u.functions, "status": "engine_error",
                     "error": "unit generated zero obligations", "time_s": 0.0, "backend": "generator"})
